@@ -250,6 +250,17 @@ func addrRoot(v ssa.Value) ssa.Value {
 }
 
 // runFresh checks every write in the given packages.
+// inPlaceSliceMutators: standard-library functions that write into the backing
+// array of their first argument (slices.Delete shifts the tail down and zeroes
+// the freed slots: on the entries of a shared trie node that changes every
+// earlier version of the map).
+var inPlaceSliceMutators = map[string]bool{
+	"slices.Delete": true, "slices.DeleteFunc": true, "slices.Insert": true, "slices.Replace": true,
+	"slices.Compact": true, "slices.CompactFunc": true, "slices.Reverse": true,
+	"slices.Sort": true, "slices.SortFunc": true, "slices.SortStableFunc": true,
+	"sort.Slice": true, "sort.SliceStable": true, "sort.Strings": true, "sort.Ints": true,
+}
+
 func runFresh(p *core.Program, r *core.Report, rule string, pkgs ...string) {
 	e := newFreshEngine(p, pkgs...)
 	var ff []string
@@ -280,6 +291,13 @@ func runFresh(p *core.Program, r *core.Report, rule string, pkgs ...string) {
 							dst, kind = v.Call.Args[0], bi.Name()
 						case "clear", "delete":
 							dst, kind = v.Call.Args[0], bi.Name()
+						}
+					}
+					// library functions that rearrange or overwrite the
+					// elements of the slice they are given, in place
+					if callee := v.Call.StaticCallee(); callee != nil && len(v.Call.Args) > 0 {
+						if inPlaceSliceMutators[core.Origin(callee).String()] {
+							dst, kind = v.Call.Args[0], callee.Name()
 						}
 					}
 				}
